@@ -980,6 +980,54 @@ def rule_life(c: Ctx) -> RuleResult:
               "no function turns text_special back into text: the placeholder kind survives into the output stream")
         r.floor = 3
         return r
+    # the eliminator is total and closed under `children`: image descriptions nest to any depth (an image inside an image
+    # description), so the conversion must (a) run on every path through the function that performs it and (b) call itself (or
+    # another eliminator) on the children of every element it visits
+    for e in sorted(elims, key=lambda f: f.qual):
+        conv = _life_conversion_loops(c, e)
+        if not conv:
+            continue
+        for (loop, var, lst_param) in conv:
+            cfg = c.cfg(e)
+            heads = [n for n in cfg.nodes if n.kind in ("for", "join") and n.ast is loop]
+            # (a) no return bypasses the loop, except behind a test that the list is empty
+            bypass = ""
+            if heads and lst_param is not None:
+                seen: set[int] = set()
+                stack = [cfg.entry]
+                while stack:
+                    x = stack.pop()
+                    if x.id in seen or x in heads:
+                        continue
+                    seen.add(x.id)
+                    if x.kind == "stmt" and isinstance(x.ast, ast.Return):
+                        bypass = f"line {x.ast.lineno}"
+                        break
+                    for (s_, lab) in x.succ:
+                        if lab in ("exc", "raise"):
+                            continue
+                        if x.kind == "test" and x.ast is not None and _is_empty_test(x.ast, lst_param, lab):
+                            continue          # the edge on which the list is known to be empty
+                        stack.append(s_)
+            r.add(f"elim|total|{e.short}", c.where(e, loop), e.short, f"for {var} in {lst_param or '<list>'}: ...", "violation" if bypass else "discharged",
+                  f"a return ({bypass}) is reachable without passing the conversion loop: on that path the list - and the children of its "
+                  f"elements (image descriptions) - keep their text_special tokens" if bypass else
+                  "every path through the eliminator passes its conversion loop (or the list is empty)")
+            # (b) recursion into <var>.children
+            rec = ""
+            for cs in c.cg.sites.get(e, []):
+                if not any(g in elims for g in cs.callees) or not _node_within(cs.node, loop):
+                    continue
+                for a in cs.node.args:
+                    a0 = _strip_iter(a)
+                    if isinstance(a0, ast.Attribute) and a0.attr == "children" and U(a0.value) == var:
+                        guards = _guards_between(e, cs.node, loop)
+                        if all(_mentions_only(g_, var, ("children", "type")) for g_ in guards):
+                            rec = f"{cs.callees[0].short}({U(a)}) inside the loop" + (f", guarded only by {[U(g_) for g_ in guards]}" if guards else "")
+            r.add(f"elim|closed|{e.short}", c.where(e, loop), e.short, f"{e.short}({var}.children)", "discharged" if rec else "violation",
+                  f"closed under children: {rec}" if rec else
+                  f"the eliminator does not call itself on `{var}.children` for every element it visits: an image nested inside an image "
+                  f"description keeps its text_special tokens (the traversal is not closed under `children`)")
     for (g, call, tokarg) in sorted(parents, key=lambda x: x[0].qual):
         # what kind of parent receives the list?
         kind = "inline" if g.module.rel.startswith("rules_core/") else ("image" if g.short == "image" else g.short)
@@ -993,6 +1041,76 @@ def rule_life(c: Ctx) -> RuleResult:
                   f"({', '.join(e.short for e in elims)}) never visits that list: the placeholder survives (and the alt text drops it)")
     r.floor = 4
     return r
+
+
+def _node_within(n: ast.AST, outer: ast.AST) -> bool:
+    return any(x is n for x in ast.walk(outer))
+
+
+def _is_empty_test(test: ast.AST, lst: str, label: str) -> bool:
+    """Is `label` the edge of `test` on which the list named lst is empty?  (`not lst` is stored by the CFG as `lst` with the
+    edges swapped; `len(lst) == 0`, `lst == []`)"""
+    if isinstance(test, ast.Name) and test.id == lst:
+        return label == "F"
+    if isinstance(test, ast.Compare) and len(test.ops) == 1:
+        l_, op, r_ = test.left, test.ops[0], test.comparators[0]
+        is_len = isinstance(l_, ast.Call) and isinstance(l_.func, ast.Name) and l_.func.id == "len" and l_.args and U(l_.args[0]) == lst
+        if is_len and isinstance(r_, ast.Constant) and r_.value == 0:
+            if isinstance(op, ast.Eq):
+                return label == "T"
+            if isinstance(op, (ast.NotEq, ast.Gt)):
+                return label == "F"
+        if is_len and isinstance(r_, ast.Constant) and r_.value == 1 and isinstance(op, ast.Lt):
+            return label == "T"
+    return False
+
+
+def _guards_between(f: Func, n: ast.AST, outer: ast.AST) -> list[ast.AST]:
+    out = []
+    q = f.module.parents.get(n)
+    while q is not None and q is not outer:
+        if isinstance(q, (ast.If, ast.IfExp, ast.While)):
+            out.append(q.test)
+        q = f.module.parents.get(q)
+    return out
+
+
+def _mentions_only(test: ast.AST, var: str, attrs: tuple[str, ...]) -> bool:
+    for x in ast.walk(test):
+        if isinstance(x, ast.Name) and x.id != var:
+            return False
+        if isinstance(x, ast.Attribute) and not (U(x.value) == var and x.attr in attrs):
+            return False
+        if isinstance(x, ast.Call):
+            return False
+    return True
+
+
+def _life_conversion_loops(c: Ctx, e: Func) -> list[tuple[ast.AST, str, str | None]]:
+    """(loop statement, element expression text, list parameter name or None) for each loop of e in whose body an element's
+    .type is turned from text_special into text."""
+    out = []
+    params = [a.arg for a in e.node.args.posonlyargs + e.node.args.args]
+    for n in own_nodes(e.node):
+        if isinstance(n, ast.Assign) and isinstance(n.value, ast.Constant) and n.value.value == "text" \
+                and any(isinstance(t, ast.Attribute) and t.attr == "type" for t in n.targets):
+            t = next(t for t in n.targets if isinstance(t, ast.Attribute) and t.attr == "type")
+            recv = t.value
+            q = e.module.parents.get(n)
+            while q is not None and q is not e.node:
+                if isinstance(q, ast.For) and isinstance(recv, ast.Name) and any(isinstance(x, ast.Name) and x.id == recv.id for x in ast.walk(q.target)):
+                    it = q.iter
+                    if isinstance(it, ast.Call) and isinstance(it.func, ast.Name) and it.func.id == "enumerate" and it.args:
+                        it = it.args[0]
+                    src = _strip_iter(it)
+                    out.append((q, recv.id, src.id if isinstance(src, ast.Name) and src.id in params else None))
+                    break
+                if isinstance(q, (ast.For, ast.While)) and isinstance(recv, ast.Subscript) and isinstance(recv.value, ast.Name):
+                    # index form: lst[i].type = 'text' inside a loop over i
+                    out.append((q, U(recv), recv.value.id if recv.value.id in params else None))
+                    break
+                q = e.module.parents.get(q)
+    return out
 
 
 def _life_covered(c: Ctx, g: Func, call: ast.Call, tokarg: str, elims: list[Func], kind: str) -> tuple[bool, str]:
